@@ -1919,7 +1919,7 @@ class Assign(Elemwise):
 
             columns = [col for col in self.frame.columns if col in cols]
             return type(parent)(
-                type(self)(self.frame[sorted(columns)], *new_args),
+                type(self)(self.frame[columns], *new_args),
                 *parent.operands[1:],
             )
 
@@ -2076,6 +2076,9 @@ class Projection(Elemwise):
             else:
                 assert b in a
 
+            if any(a.count(bb) > 1 for bb in _convert_to_list(b)):
+                # a label that is repeated in a selects all of its columns
+                b = [bb for bb in _convert_to_list(b) for _ in range(a.count(bb))]
             return self.frame.frame[b]
 
 
@@ -3570,7 +3573,7 @@ class AssignAlign(MaybeAlignPartitions):
 
             columns = [col for col in self.frame.columns if col in cols]
             return type(parent)(
-                type(self)(self.frame[sorted(columns)], *new_args),
+                type(self)(self.frame[columns], *new_args),
                 *parent.operands[1:],
             )
 
